@@ -1,7 +1,7 @@
 (* Property theorems for C18 -- statements only; proofs are `exact` of lemmas.
    Model: C18/Append.v (appending writer, fresh and long-lived reader) over C12/Fs.v. *)
 From Coq Require Import NArith Arith List Bool Lia.
-From GD Require Import C12.Fs C12.FlushProto C12.FlushProofs C12.FlushTheorems C18.Append C18.AppendProofs Gen.RawShape.
+From GD Require Import C12.Fs C12.FlushProto C12.FlushProofs C12.FlushTheorems C18.Append C18.AppendProofs C18.Sie Gen.RawShape.
 Import ListNotations.
 
 (* the translator recognised the anchors of raw.c the model relies on *)
@@ -85,3 +85,32 @@ Qed.
    disappear again this proof no longer checks. *)
 Theorem long_lived_consistent : long_lived_consistent_statement read_steps_back.
 Proof. exact rd_read_fixed. Qed.
+
+(* ---- sample-index-encoded data (record-level model C18/Sie.v): the library
+   appends sample k by first writing a record (k, 0) and then replacing it by
+   (k, v).  sie_observed ws vs j = what a reader decodes after j such steps of
+   a writer appending vs to a file holding ws ---- *)
+
+(* full statement: the reader always sees a prefix of what the writer wrote *)
+Definition sie_consistent_statement := Sie.sie_consistent_statement.
+
+(* refuted: after the placeholder and before the data the extra sample reads 0 *)
+Theorem sie_consistent_refuted : ~ sie_consistent_statement.
+Proof. exact sie_refuted_lemma. Qed.
+
+(* the exact observation at every step ... *)
+Theorem sie_observation : forall ws vs j,
+  sie_observed ws vs j = ws ++ firstn (Nat.div2 j) vs ++ pending vs j.
+Proof. exact sie_observed_eq. Qed.
+
+(* ... hence consistent at every even step (between two appends) ... *)
+Theorem sie_consistent_between_appends : forall ws vs j, Nat.odd j = false ->
+  list_prefix (sie_observed ws vs j) (ws ++ vs).
+Proof. exact sie_even_consistent_lemma. Qed.
+
+(* ... and inconsistent exactly in the window after the placeholder of a
+   non-zero sample: one sample too many, reading 0 *)
+Theorem sie_window_exact : forall ws vs j, Nat.odd j = true -> Nat.div2 j < length vs ->
+  sie_observed ws vs j = ws ++ firstn (Nat.div2 j) vs ++ [0%N] /\
+  (nth (Nat.div2 j) vs 0%N <> 0%N -> ~ list_prefix (sie_observed ws vs j) (ws ++ vs)).
+Proof. exact sie_window_lemma. Qed.
